@@ -27,3 +27,45 @@ def obs_both(c, precision='float64'):
     except Exception as e:
         out['vec_run'] = observe.raised(e)
     return out
+
+
+def obs_yaml(c, path=None, precision='float64'):
+    """restart semantics: a pristine process loads the stored file itself and observes the model"""
+    from pyrates import CircuitTemplate
+    try:
+        t = CircuitTemplate.from_yaml(path)
+    except Exception as e:
+        r = observe.raised(e)
+        return {'scalar': r, 'vec_run': r}
+    return obs_both(t, precision)
+
+
+def obs_spec(c, spec=None, precision='float64'):
+    from . import models
+    try:
+        t = models.build(spec)
+    except Exception as e:
+        r = observe.raised(e)
+        return {'scalar': r, 'vec_run': r}
+    return obs_both(t, precision)
+
+
+def obs_explicit(c, eqs=None, variables=None, opname='op', precision='float64'):
+    from pyrates import CircuitTemplate, NodeTemplate, OperatorTemplate
+    try:
+        op = OperatorTemplate(name=opname, equations=list(eqs), variables=dict(variables))
+        t = CircuitTemplate(name='der_c', nodes={'p': NodeTemplate(name='der_node', operators=[op])})
+    except Exception as e:
+        r = observe.raised(e)
+        return {'scalar': r, 'vec_run': r}
+    return obs_both(t, precision)
+
+
+def obs_base_after_derive(c, base=None, derived=None, precision='float64'):
+    """load the derived template first (same process), then observe the base it was derived from"""
+    from pyrates import CircuitTemplate
+    try:
+        CircuitTemplate.from_yaml(derived)
+    except Exception:
+        pass
+    return obs_yaml(None, base, precision)
